@@ -251,6 +251,13 @@ theorem atoms_match_spec (file : List Line) (hv : valid file = true) :
   have := (context_invariant file init [] [] inv_init hv).obs
   simpa [run, specAtoms] using this
 
+/-- **last_read_only** — whatever files the same object read before (valid or not), the atoms after the last
+    read are the specification's atoms of the last file alone -/
+theorem last_read_only (earlier : List (List Line)) (file : List Line) (hv : valid file = true) :
+    observe (readHistory (earlier ++ [file])) = (specAtoms file).map some := by
+  simp only [readHistory, List.foldl_append, List.foldl_cons, List.foldl_nil]
+  exact atoms_match_spec file hv
+
 /-- the running context after any valid prefix is the instruction in force at that point -/
 theorem context_after_prefix (pre : List Line) (hv : valid pre = true) :
     (run pre).parts[(run pre).part]? = some (specPart pre.reverse) ∧
@@ -279,6 +286,11 @@ example : specAtoms demoFile =
      ⟨5, 1, 11, [5/100, 6/5, 0, 0, 0, 0], 0, 0, 0, "", true⟩] := by decide +kernel
 
 example : observe (run demoFile) = (specAtoms demoFile).map some := atoms_match_spec demoFile (by decide +kernel)
+
+/-- read after another file that leaves a PART and a residue open and ends without END -/
+example : observe (readHistory ([[.resi "BNZ" 7, .part 1 41, .atom ⟨9, 3, 11, [4/100]⟩]] ++ [demoFile])) =
+    (specAtoms demoFile).map some :=
+  last_read_only _ demoFile (by decide +kernel)
 
 /-! ### the code before the fixes: the same statement is false -/
 
